@@ -741,6 +741,10 @@ pub fn deviations() -> Vec<(usize, String, Box<dyn Fn(&mut RuleSpec) + Send + Sy
     add(5, "dt open end", Box::new(move |r| r.datetime = Some(vec![(t0(), None)])));
     add(5, "dt unparsable end", Box::new(move |r| r.datetime = Some(vec![(t0(), Some("not a date".into()))])));
     add(5, "time[09,17)", Box::new(|r| r.time = Some(vec![(Some("09:00:00".into()), Some("17:00:00".into()))])));
+    // daily windows open at one end, or at both (= always)
+    add(5, "time[09,-)", Box::new(|r| r.time = Some(vec![(Some("09:00:00".into()), None)])));
+    add(5, "time[-,17)", Box::new(|r| r.time = Some(vec![(None, Some("17:00:00".into()))])));
+    add(5, "time[-,-)", Box::new(|r| r.time = Some(vec![(None, None)])));
     add(5, "weekdays[Mon,Tue]", Box::new(|r| r.weekdays = Some(vec!["Mon".into(), "Tue".into()])));
     add(5, "weekdays[Mon] (prefix of [Mon,Tue])", Box::new(|r| r.weekdays = Some(vec!["Mon".into()])));
     add(5, "weekdays unparsable", Box::new(|r| r.weekdays = Some(vec!["Blursday".into()])));
